@@ -173,6 +173,8 @@ def judge_results(ctx, case):
         return
     if verdict in ("contact", "identical") and ctx.known_class(case, KNOWN_CLASSES):
         return
+    if ctx.known_class(case, c01.ABS_CLASS):
+        return
     if ctx.known_class(case, {"xor-of-crossing-float-or-curved-operands": c01.xor_curved_crossing}):
         return
     exact = not curved and all(rg.curve_is_exact(c) for c in ca + cb)
